@@ -94,6 +94,21 @@ def run_parallel(R, P, rule, jobs=12):
         n += k
         for key, lst in b.items():
             bad.setdefault(key, []).extend(lst)
+    # outside the table on either side: no access outside the table (the folder's arrays abort on one), and no date made up
+    E2 = _G["E"]
+    flat = [b for row in bom for b in row]
+    for off, what in ((flat[0] - 1, "the day before the first month of the table"), (flat[0] - 20000, "1845"), (flat[-1] + 31, "a month behind the last month of the table"),
+                      (flat[-1] + 20000, "2084")):
+        e = LILIAN0 + datetime.timedelta(days=off)
+        n += 1
+        try:
+            fo = fold.Folder(tu.func("dt_dconv"), calls={}, inline=True, max_steps=400000)
+            h = fo.run([E2["DT_UMMULQURA"], {"typ": E2["DT_YMD"], "ymd.y": e.year, "ymd.m": e.month, "ymd.d": e.day}])
+            got = tuple(h.get("ummulqura." + f_) or 0 for f_ in "ymd") if isinstance(h, dict) else h
+            if got != (0, 0, 0):
+                bad.setdefault("dt_dconv", []).append(("%s (%s) to Hijri" % (e.isoformat(), what), str(got), "no date (outside the table)"))
+        except fold.Abort as ex:
+            bad.setdefault("dt_dconv", []).append(("%s (%s) to Hijri" % (e.isoformat(), what), "reads outside the table: %s" % ex, "no date (outside the table)"))
     for f in FUNCS:
         if f in bad:
             lst = sorted(bad[f])
